@@ -342,6 +342,23 @@ impl<K: KindInternals> Sys for ChSys<K> {
                                     }
                                 }
                                 next_pos = Some(pos + n as u128);
+                                // the infallible entry point (provided method StreamCipher::apply_keystream, which an
+                                // impl may override) must do exactly what try_apply_keystream did: same bytes,
+                                // same state afterwards
+                                let mut twin = self.rebuild(s);
+                                let mut buf2 = vec![0xc3u8; 64 + n + 64];
+                                buf2[64..64 + n].copy_from_slice(&pat);
+                                match guarded(|| twin.apply_keystream(&mut buf2[64..64 + n])) {
+                                    Err(p) => return self.bad(&format!("apply_keystream-panic:{}", panic_class(&p)), format!("apply_keystream({} bytes) at position {} panicked where try_apply_keystream returned Ok: {}", n, pos, p)),
+                                    Ok(()) => {
+                                        if buf2 != buf {
+                                            return self.bad("apply_keystream-differs", format!("apply_keystream({}) at position {} produced other bytes than try_apply_keystream", n, pos));
+                                        }
+                                        if K::snap(&twin) != K::snap(&c) {
+                                            return self.bad("apply_keystream-state-differs", format!("after apply_keystream({}) at position {} the cipher's state differs from the state after try_apply_keystream({}) (same bytes were produced)", n, pos, n));
+                                        }
+                                    }
+                                }
                             }
                             Err(_) => {
                                 if fits && !lenient {
